@@ -480,7 +480,10 @@ func c18UDP(c *vk.Ctx, r *rand.Rand, catcher *panicCatcher) bool {
 		}
 		var pt []byte
 		class := ""
-		switch r.Intn(9) {
+		switch r.Intn(10) {
+		case 9:
+			// a destination the kernel refuses to send to: the write to the target fails
+			pt, class = append(sscodec.AddrIP(net.IPv4(45, 70, 0, byte(1+r.Intn(200))), 0, false), 'p'), "destination-port-0"
 		case 0:
 			pt, class = append([]byte{byte(r.Intn(256))}, randBytes(r, r.Intn(30))...), "address-type-byte"
 		case 1:
